@@ -1,6 +1,7 @@
 """C10 - duplication: a factored-out literal set means what the replaced literals meant"""
 from __future__ import annotations
 
+import corr_duplication
 import semcheck
 import tgen
 import semprop
@@ -12,9 +13,13 @@ RULE = ('oracle cases = programs harvested from /repo/tests (ast,literal_duplica
 EXTRA = ['reserved(X,X) :- X = 1..N, size(N), open. other(X) :- X = 1..N, size(N), open, x.', 'half(H) :- H = #sum{ 2*P,A : price(A,P), sale(A); 1,B : price(B,Q), sale(B), big(Q) }.', 'a(X) :- b(X), c(Y) : d(X,Y), e(Y). f(X) :- b(X), c(Y) : d(X,Y), e(Y); g.', 'foo(X) :- a(X), b(X), c(X). bar(X) :- a(X), b(X), e(X).']
 
 
+def corr(rng, quick):
+    return corr_duplication.run(rng, 60 if quick else 2500, corpus_limit=60 if quick else None)
+
+
 def run(ctx) -> int:
     flags = [semcheck.flags_only("duplication")]
-    return _generic.run_semantic(ctx, MODULE, LEVEL, RULE, flags, 'voc', {'literal_duplication', 'ast'}, EXTRA, (110, 700), (80, 3000),
+    return _generic.run_semantic(ctx, MODULE, LEVEL, RULE, flags, 'voc', {'literal_duplication', 'ast'}, EXTRA, (110, 700), (80, 3000), corr=[('duplication', corr)],
                                  n_inst=5, facts_over='in', outp_choices=('auto',), one_to_one=True, generators=[tgen.GENERATORS['duplication']],
                                  assumptions=("the pass's syntactic decisions are not derived from the ground-level side conditions in Lean (validated by the oracle)", 'instances range over the declared/auto-detected input predicates only'))
 
